@@ -154,7 +154,9 @@ func (ci *ChunkInfo) initNeighborChunkInfo(rootCid, peer boson.Address, cids [][
 
 	for _, cid := range cids {
 		c := boson.NewAddress(cid)
-		err := ci.UpdateChunkInfoSource(rootCid, peer, c)
+		// the source table has its own lock and update queue: touching it from
+		// this (neighbour table) update would race with a concurrent DelFile
+		err := ci.chunkPutChanUpdate(context.Background(), ci.cs, ci.UpdateChunkInfoSource, rootCid, peer, c).err
 		if err != nil {
 			ci.logger.Errorf("chunkInfo:UpdateChunkInfoSource error:%v", err)
 			return
